@@ -132,7 +132,7 @@ def ball_pt(rng, rmax=0.9):
 def gen_poly(rng, n):
     for i in range(n):
         nv = rng.choice([3, 4, 5, 6, 7, 8])
-        kind = rng.choice(["random", "random", "convex", "through_origin", "nearly_straight"])
+        kind = rng.choice(["random", "random", "convex", "through_origin", "nearly_straight", "ideal"])
         if kind == "convex":
             ts = sorted(rng.uniform(0, 2 * math.pi) for _ in range(nv))
             r = rng.uniform(0.2, 0.9)
@@ -151,6 +151,12 @@ def gen_poly(rng, n):
                     w = [w[0] - eps * v[1] / nv_, w[1] + eps * v[0] / nv_]
                 j = rng.randrange(nv)
                 vs[j], vs[(j + 1) % nv] = v, w
+        if kind == "ideal":
+            # ideal vertices (on the unit circle), among them possibly the half-plane's point at infinity (1, 0)
+            ts = sorted(rng.uniform(0.5, 2 * math.pi - 0.5) for _ in range(nv))      # on-screen in the half-plane window
+            vs = [[math.cos(t), math.sin(t)] if rng.random() < 0.6 else [0.8 * math.cos(t), 0.8 * math.sin(t)] for t in ts]
+            if rng.random() < 0.6:
+                vs[rng.randrange(nv)] = [1.0, 0.0]
         # the transform is the identity for the special kinds (so that the special edge stays special in the drawing)
         tr = rand_iso(rng) if (kind in ("random", "convex") and rng.random() < 0.5) else None
         yield {"verts": vs, "model": rng.choice(["poincare", "poincare", "halfspace"]), "kind": kind, "transform": tr}
@@ -192,9 +198,13 @@ def _qpt(p):
     return [Q.qs(p[0]), Q.qs(p[1])]
 
 
+def _has_nan(obs):
+    return not finite(np.array([v for pc in obs["pieces"] for v in pc["verts"] + [pc["p1"], pc["p2"]]], float))
+
+
 def lean_assemble(inp, obs):
-    if "exc" in obs:
-        return []
+    if "exc" in obs or _has_nan(obs):
+        return []        # a vertex at the half-plane's point at infinity has NaN coordinates: not representable exactly
     pcs = [{"verts": [_qpt(v) for v in pc["verts"]], "codes": pc["codes"], "p1": _qpt(pc["p1"]), "p2": _qpt(pc["p2"])} for pc in obs["pieces"]]
     ops = [{"op": "c19.assemble", "tau2": Q.qs(F(TAU) * F(TAU)), "pieces": pcs}]
     for pc, k in zip(obs["pieces"], obs["kinds"]):
@@ -206,6 +216,8 @@ def lean_assemble(inp, obs):
 def judge_assemble(inp, obs, lr):
     if "exc" in obs:
         return {"expected": "polygon path", "observed": obs, "tags": {"exc": obs["exc"], "model": inp["model"]}, "property_failure": True}
+    if _has_nan(obs):
+        return None
     r = lr[0]
     if "err" in r:
         return {"expected": "model answer", "observed": r, "tags": {"driver_err": r["err"]}}
@@ -247,6 +259,9 @@ def judge_poly(inp, obs, lr):
     V = klein_to(model, proj[:, 1:] / proj[:, :1])
     verts, codes = np.array(obs["verts"]), obs["codes"]
     k = len(V)
+    at_inf = [i for i in range(k) if not finite(V[i]) or (model == "halfspace" and abs(V[i][0]) > 1e6)]
+    if at_inf:
+        return judge_poly_at_infinity(inp, obs, V, at_inf, tags)
     if codes.count(1) != 1 or codes[0] != 1:
         return {"expected": "exactly one MOVETO, first", "observed": codes[:20], "tags": dict(tags, what="moveto")}
     if any(c not in (1, 2, 4) for c in codes):
@@ -298,6 +313,60 @@ def judge_poly(inp, obs, lr):
     return None
 
 
+def judge_poly_at_infinity(inp, obs, V, at_inf, tags):
+    """half-plane polygon with a vertex at the point at infinity: edges to it are vertical rays; the path may only leave the
+    edges off-screen (above the visible window)"""
+    model = "halfspace"
+    tags = dict(tags, at_infinity=True)
+    verts, codes = np.array(obs["verts"]), obs["codes"]
+    k = len(V)
+    top = D.default_model_limits(Model.HALFSPACE)[1][1]
+    if codes.count(1) != 1 or codes[0] != 1:
+        return {"expected": "exactly one MOVETO, first", "observed": codes[:20], "tags": dict(tags, what="moveto")}
+    if not finite(verts):
+        return {"expected": "finite path vertices", "observed": "nan/inf", "tags": dict(tags, what="nan")}
+    edges, rays = [], []
+    for i in range(k):
+        a, b = V[i], V[(i + 1) % k]
+        ia, ib = i in at_inf, (i + 1) % k in at_inf
+        if ia and ib:
+            continue
+        if ia or ib:
+            rays.append(b if ia else a)
+            continue
+        g = ref_geodesic(model, a, b)
+        L = float(np.linalg.norm(a - b))
+        if g is None or g[1] >= RTHR * (1 - 1e-9):
+            edges.append(("straight", a, b, None, (0.0 if g is None else L * L / (8 * g[1]) * 1.05) + abs(a[0] - b[0]) + 1e-6))
+        else:
+            edges.append(("arc", a, b, g, 1e-4 * (1 + g[1])))
+    for vi, p in bezier_samples(verts, codes):
+        if p[1] >= top - 1e-9:
+            continue                                    # off-screen
+        if p[1] < -1e-6:
+            return {"expected": "path inside the half-plane", "observed": p.tolist(), "tags": dict(tags, what="region")}
+        if any(on_edge(model, p, *e) for e in edges):
+            continue
+        if any(abs(p[0] - r[0]) <= 1e-6 * (1 + abs(r[0])) and p[1] >= r[1] - 1e-6 for r in rays):
+            continue
+        return {"expected": "visible path points on an edge or on the vertical ray of an edge to infinity", "observed": p.tolist(),
+                "tags": dict(tags, what="on_edge")}
+    # every finite vertex is visited, in cyclic order
+    fin = [i for i in range(k) if i not in at_inf]
+    hits = []
+    for i in fin:
+        d = np.linalg.norm(verts - V[i], axis=1)
+        j = int(np.argmin(d))
+        if d[j] > 1e-4 * (1 + np.linalg.norm(V[i])):
+            return {"expected": "path visits vertex %d" % i, "observed": float(d[j]), "tags": dict(tags, what="order")}
+        hits.append(j)
+    rot = hits.index(min(hits))
+    seq = hits[rot:] + hits[:rot]
+    if any(seq[t] > seq[t + 1] for t in range(len(seq) - 1)):
+        return {"expected": "finite vertices visited in cyclic order", "observed": hits, "tags": dict(tags, what="order")}
+    return None
+
+
 def on_edge(model, p, kind, a, b, g, tol):
     if kind == "straight":
         ab = b - a
@@ -311,7 +380,15 @@ def on_edge(model, p, kind, a, b, g, tol):
     ang = lambda z: math.atan2(z[1] - c[1], z[0] - c[0])
     ta, tb, tp = ang(a), ang(b), ang(p)
     span = (tb - ta + math.pi) % (2 * math.pi) - math.pi
+    if abs(abs(span) - math.pi) < 1e-6:
+        # two ideal endpoints: a half circle; take the half inside the model's region
+        mid = c + r * np.array([math.cos(ta + math.pi / 2), math.sin(ta + math.pi / 2)])
+        span = math.pi if in_region(model, mid, 1e-9) and (model != "poincare" or mid @ mid <= 1) else -math.pi
     off = (tp - ta + math.pi) % (2 * math.pi) - math.pi
+    if span > 0 and off < -1e-3:
+        off += 2 * math.pi
+    if span < 0 and off > 1e-3:
+        off -= 2 * math.pi
     slack = 2 * tol / max(r, 1e-9) + 1e-7
     return (min(0, span) - slack <= off <= max(0, span) + slack)
 
@@ -323,7 +400,7 @@ def gen_misc(rng, n):
     for _ in range(n):
         yield {"model": rng.choice(MODELS), "a": ball_pt(rng), "b": ball_pt(rng), "pts": [ball_pt(rng) for _ in range(rng.choice([1, 3]))],
                "poly": [ball_pt(rng) for _ in range(rng.choice([3, 4, 6, 8]))], "transform": rand_iso(rng) if rng.random() < 0.6 else None,
-               "horo_angle": rng.uniform(-3, 3), "chart": rng.choice([0, 1, 2]),
+               "horo_angle": rng.uniform(-3, 3), "chart": rng.choice([0, 1, 2]), "sign": rng.choice([-1.0, 1.0]), "tsign": rng.choice([-1.0, 1.0]),
                "ptrans": [[rng.gauss(0, 1) for _ in range(3)] for _ in range(3)],
                "ppoly": [[rng.choice([-1, 1]) * rng.uniform(0.5, 2) if j == 0 else rng.uniform(-2, 2) for j in range(3)] for _ in range(4)]}
 
@@ -396,6 +473,17 @@ def run_misc(inp):
                 out["proj_rejected"] = "GeometryError"
         finally:
             plt.close(pd.fig)
+    # a polygon inside the standard chart, representatives of one (random) sign, drawn without assuming it is affine
+    sgn = inp.get("sign", 1.0)
+    hom = np.array([[sgn * abs(v[0])] + [sgn * abs(v[0]) * t for t in v[1:]] for v in inp["ppoly"]])
+    pd2 = D.ProjectiveDrawing(chart_index=0, transform=P.Transformation(np.diag([inp.get("tsign", 1.0), 1.0, 1.0])))
+    try:
+        pd2.draw_polygon(P.Polygon(hom), assume_affine=False)
+        polys = [np.asarray(q.vertices, float).tolist() for c in pd2.ax.collections for q in c.get_paths()]
+        polys += [np.asarray(q.get_path().vertices, float).tolist() for q in pd2.ax.patches]
+        out["nonaffine_flag"] = polys
+    finally:
+        plt.close(pd2.fig)
     return out
 
 
@@ -467,6 +555,13 @@ def judge_misc(inp, obs, lr):
     for nm, what in obs["rejected"]:
         if what != "GeometryError":
             return {"expected": "GeometryError for %s" % nm, "observed": what, "tags": dict(tags, what="wrong dimension", obj=nm)}
+    if "nonaffine_flag" in obs:
+        hom = np.array([[abs(v[0])] + [abs(v[0]) * t for t in v[1:]] for v in inp["ppoly"]])
+        aff = hom[:, 1:] / hom[:, :1] * inp.get("tsign", 1.0) ** -1 if False else (hom[:, 1:] / hom[:, :1]) / inp.get("tsign", 1.0)
+        polys = obs["nonaffine_flag"]
+        if len(polys) != 1 or not close(np.array(polys[0])[:len(aff)], aff, 1e-9):
+            return {"expected": {"one polygon at": aff.tolist()}, "observed": polys, "tags": {"what": "projective polygon, assume_affine=False",
+                    "sign": inp.get("sign"), "tsign": inp.get("tsign")}}
     if "proj_polygon" in obs:
         pt = np.array(inp["ptrans"])
         pp = np.array(inp["ppoly"]) @ pt
